@@ -37,7 +37,7 @@ import (
 
 // coldEnvs: environments whose construction runs none of the operations under
 // test (no Font.Write, no Subset, no encoder).
-var coldEnvs = []string{"cff-gtab", "cff-cid", "cff-nonames", "glyf-gtab"}
+var coldEnvs = []string{"cff-gtab", "cff-cid", "cff-nonames", "glyf-gtab", "cff-big"}
 
 type coldOp struct {
 	Name string
